@@ -33,9 +33,11 @@ D_PAST = "Mon, 31 Dec 2029 23:00:00 GMT"
 D_NOW = "Tue, 01 Jan 2030 00:00:00 GMT"
 D_FUT = "Tue, 01 Jan 2030 00:01:30 GMT"
 D_9999 = "Fri, 31 Dec 9999 23:59:59 GMT"
-DATES = {D_PAST: 0.0, D_NOW: 0.0, D_FUT: 90.0, D_9999: None}
+D_NAIVE = "Tue, 01 Jan 2030 00:01:30"          # no zone: read as UTC (pinned by the repository's tests)
+D_MINUS0 = "Tue, 01 Jan 2030 00:01:30 -0000"   # RFC 5322 "-0000": UTC, no zone information
+DATES = {D_PAST: 0.0, D_NOW: 0.0, D_FUT: 90.0, D_9999: None, D_NAIVE: 90.0, D_MINUS0: 90.0}
 TOKENS = ["", " ", "\t", "0", "1", "7", "120", "9" * 308, "9" * 309, "9" * 4300, "9" * 4301, "+",
-          "-", "_", ".", "e", "x", "٣", "²", "\x00", D_PAST, D_NOW, D_FUT, D_9999, "Mon, ",
+          "-", "_", ".", "e", "x", "٣", "²", "\x00", D_PAST, D_NOW, D_FUT, D_9999, D_NAIVE, D_MINUS0, "Mon, ",
           "01 Jan 2035 ", "00:00:00 ", "GMT", "+0000", "+9999", "+99999999999999"]
 NONSTR = [None, 5, 5.5, True, False, 10 ** 400, -(10 ** 400), math.nan, math.inf, -math.inf, -3,
           0, b"5", ["5"], (5,), {"a": 1}, "OBJ"]
@@ -313,6 +315,18 @@ def run_end_to_end(task, seed):
             sleeps.append(s)
             clock.now += s
 
+        async def async_sleeper(s, clock=clock, sleeps=sleeps):
+            sleeps.append(s)
+            clock.now += s
+
+        if is_async:
+            # three shapes of async sleeper: plain function, coroutine function, plain callable
+            # returning an awaitable
+            shape = (hash((repr(h), jit, fr)) // 7) % 3
+            use_sleeper = (sleeper, async_sleeper, lambda s: async_sleeper(s))[shape]
+        else:
+            use_sleeper = sleeper
+
         def op(h=h):
             e = Exc429("x")
             if isinstance(h, str):
@@ -332,7 +346,7 @@ def run_end_to_end(task, seed):
         res["nontrivial"].add(hash(case))
         try:
             if is_async:
-                co = AsyncRetry(**kw).call(aop, sleeper=sleeper)
+                co = AsyncRetry(**kw).call(aop, sleeper=use_sleeper)
                 try:
                     co.send(None)
                 except StopIteration:
